@@ -381,3 +381,14 @@ func init() {
 	reg("math/rand/v2.IntN", randIn(64))
 	reg("math/rand/v2.Int64N", randIn(64))
 }
+
+func init() {
+	// the local time zone is UTC and no zone database is available (no file system)
+	reg("time.initLocal", func(fr *frame, fn *ssa.Function, args []value) value {
+		fr.in.P.noteAssumption("the local time zone is UTC; no time zone database is consulted")
+		return nil
+	})
+	reg("time.loadLocation", func(fr *frame, fn *ssa.Function, args []value) value {
+		return tuple{(*value)(nil), fr.in.opaqueError("unknown time zone (no zone database in the model)", nil)}
+	})
+}
